@@ -269,3 +269,43 @@ Theorem C01_covered_programs_bit_semantics_is_source_semantics :
   end.
 Proof. exact covered_program_sound. Qed.
 Print Assumptions C01_covered_programs_bit_semantics_is_source_semantics.
+
+(* ------------------------------------------------------------------ no run-time witness at all:
+   for programs that pass the boolean tests [safe_program_ok] (re-checker Wt.v + side conditions,
+   Compile/TSemSafe.v), [params_ok] and [fuel_enough] (Compile/TSemTotal.v: a computable bound on
+   the fuel the lowering needs; recursion makes it exceed the cap), the bit-level semantics is
+   defined on EVERY input, so the circuit theorem holds unconditionally: whenever the model of
+   compile.rs returns a circuit within the gate bound, that circuit validates and, for all inputs,
+   decodes to the panic / value bits of TSem, which has size(return type) bits. *)
+From GV Require Import Compile.TSemSafe Compile.TSemTotal.
+
+Theorem C01_circuit_computes_bit_semantics_unconditionally :
+  forall fuel dedup P s1 outs,
+  safe_program_ok P = true -> params_ok P = true ->
+  (fuel_needed P <= fuel_cap)%nat -> (fuel_needed P <= fuel)%nat ->
+  lower_main_with fuel dedup P = Ok (PreOk s1 outs) ->
+  counter (cb s1) + (b_shift (cb s1) - 2) <= MAX_GATES ->
+  exists fd igs bindings,
+    find_fn P (p_main P) = Some fd /\ param_wiring P (fn_params fd) = (igs, bindings) /\
+    forall ins inp,
+      load_inputs igs ins = Some inp ->
+      exists o vouts c out,
+        tsem_program fuel P (param_args bindings inp) = Ok (o, vouts) /\
+        length vouts = szn P (fn_ret fd) /\
+        lower_program_with fuel dedup P = Ok (LCircuit c) /\
+        ssa_validate c = None /\ input_gates c = igs /\
+        length (output_gates c) = (161 + length vouts)%nat /\
+        ssa_eval c ins = Some out /\
+        parse_panic out = parse_spec o vouts /\
+        (o = None -> skipn 161 out = vouts).
+Proof. intros fuel dedup P. exact (lower_program_total fuel dedup P). Qed.
+Print Assumptions C01_circuit_computes_bit_semantics_unconditionally.
+
+Theorem C01_bit_semantics_terminates :
+  forall P fuel args fd,
+  safe_program_ok P = true -> (fuel_needed P <= fuel_cap)%nat -> (fuel_needed P <= fuel)%nat ->
+  find_fn P (p_main P) = Some fd ->
+  Forall2 (fun p a => length a = szn P (snd p)) (fn_params fd) args ->
+  exists o outs, tsem_program fuel P args = Ok (o, outs) /\ length outs = szn P (fn_ret fd).
+Proof. exact tsem_program_terminates. Qed.
+Print Assumptions C01_bit_semantics_terminates.
